@@ -42,10 +42,17 @@ PROPS = {
             "configs": cfgs_scalar_sets},
     "C07": {"id": "C07", "source": "c07.cpp", "files": INT_VEC_FILES + FLT_VEC_FILES + SCALAR_FILES, "min_configs": {"quick": 8, "thorough": 30}},
     "C05": {"id": "C05", "source": "c05.cpp", "files": INT_VEC_FILES, "min_configs": {"quick": 8, "thorough": 30}, "scale": {"quick": 300, "thorough": 300}},
+    "C03": {"id": "C03", "source": "c03.cpp", "files": INT_VEC_FILES + FLT_VEC_FILES, "min_configs": {"quick": 8, "thorough": 30}, "optional_classes": ["noncanonical_representation_seen"],
+            "max_success": {"quick": 1500, "thorough": 20000}},
     "C02": {"id": "C02", "source": "c02.cpp", "files": INT_VEC_FILES + FLT_VEC_FILES, "min_configs": {"quick": 8, "thorough": 30}, "digest_binding": True},
 }
 
 MANIFEST_TEXT = {
+    "C03": {
+        "technique": "model-based (stateful) property testing: rapidcheck-generated and enumerated command histories over four mask registers, compared with an array<bool,N> model through every observer after every command; histories shrink as one value",
+        "level": "Generated-history search: 16 commands (& | ^ && || &= |= ^= ! insert<I> Mask(bool) Mask(array) =bool Mask(Vector(m)) set_bits(m)!=0 Mask(vector of special lanes)) on all 40 mask types in every configuration; after every command every register is read through primitive decode, extract<I> for all I, count/any/all/none, ==/!= against every register, Vector(mask), set_bits(mask). Enumerated: all 2^N patterns for N<=16 with insert<I>(m,false/true), every special lane value (-0.0, NaN, subnormal, single non-zero byte ...) in every lane for mask(vector).",
+        "note": "Trusted: the boolean-array model, host CPU, compilers. N=32/64 patterns are structured + random, not exhaustive. Non-canonical representations are counted and are violations only when an observer disagrees with the model.",
+    },
     "C05": {
         "technique": "property-based testing: enumerated (all 8-bit pairs, lattice cross products, quotient-length classes; all 16-bit pairs in thorough) + rapidcheck (dividend, divisor) vectors with zero-divisor and MIN/-1 lanes injected into other lanes, __int128 division oracle + q*y+r==x relation, signal guard, per build configuration",
         "level": "Generated-input search over (dividend, divisor) lanes for div, /, %, /=, %= on every integer vector type in every configuration; zero divisors (and MIN/-1) are placed in rotating subsets of the other lanes of wide vectors, executed under a SIGFPE/SIGSEGV guard and not compared, so both 'no trap' and 'no disturbance of other lanes' are observed; quotient-length classes drive every early-exit stage of the shift-subtract emulations.",
